@@ -1,4 +1,5 @@
 import CandidModel.Proofs.DeNeutral
+import CandidModel.Proofs.DeShift
 /-
   C07 — Decoding quotas bound the work and never change the result.
   `De.*` mirrors de.rs with its cost accounting.  This file: the accounting primitive, and neutrality for
@@ -165,5 +166,79 @@ theorem two_quota_configurations_agree (bs : Bytes) (env : Env) (expected : List
   rw [ha] at hb
   simp only [R.ok.injEq] at hb
   exact hb.1
+
+/-- the order on quotas: no quota is the largest -/
+def qle (a b : Option Nat) : Prop :=
+  match a, b with
+  | _, none => True
+  | some n, some m => n ≤ m
+  | none, some _ => False
+
+theorem qle_mode (a b : Option Nat) (h : qle a b) : ∃ δ, qrel δ a b := by
+  cases b with
+  | none => exact ⟨.drop, rfl⟩
+  | some m =>
+    cases a with
+    | none => simp [qle] at h
+    | some n =>
+      simp only [qle] at h
+      exact ⟨.both (m - n), n, rfl, by congr 1; omega⟩
+
+/-- **Success is monotone in both quotas**: when decoding returns values under some quotas, it returns the same
+values under any larger decoding quota and any larger skipping quota (an absent quota counting as the largest). -/
+theorem success_is_monotone_in_both_quotas (bs : Bytes) (env : Env) (expected : List Ty) (c1 c2 : Config)
+    (vs : List Val) (st : St)
+    (hd : qle c1.decodingQuota c2.decodingQuota) (hs : qle c1.skippingQuota c2.skippingQuota)
+    (h : decodeWithConfig bs env expected c1 = .ok vs st) :
+    ∃ st', decodeWithConfig bs env expected c2 = .ok vs st' := by
+  obtain ⟨δd, h1⟩ := qle_mode _ _ hd
+  obtain ⟨δs, h2⟩ := qle_mode _ _ hs
+  obtain ⟨st', h3, _⟩ := decode_shift (δd := δd) (δs := δs) bs env expected c1 c2 vs st h1 h2 h
+  exact ⟨st', h3⟩
+
+/-- a failure under larger quotas is a failure under smaller ones (contrapositive) -/
+theorem failure_is_antitone_in_both_quotas (bs : Bytes) (env : Env) (expected : List Ty) (c1 c2 : Config)
+    (hd : qle c1.decodingQuota c2.decodingQuota) (hs : qle c1.skippingQuota c2.skippingQuota)
+    (h : ∀ vs st, decodeWithConfig bs env expected c2 ≠ .ok vs st) :
+    ∀ vs st, decodeWithConfig bs env expected c1 ≠ .ok vs st := by
+  intro vs st h1
+  obtain ⟨st', h2⟩ := success_is_monotone_in_both_quotas bs env expected c1 c2 vs st hd hs h1
+  exact h vs st' h2
+
+/-- **The cost of a successful decode does not depend on the quotas supplied**: two successful runs under
+decoding quotas `n1`, `n2` (and any skipping quotas) leave `r1`, `r2` with `n1 - r1 = n2 - r2` (as integers). -/
+theorem cost_does_not_depend_on_quotas (bs : Bytes) (env : Env) (expected : List Ty) (n1 n2 : Nat) (q1 q2 : Option Nat)
+    (v1 v2 : List Val) (s1 s2 : St)
+    (h1 : decodeWithConfig bs env expected ⟨some n1, q1⟩ = .ok v1 s1)
+    (h2 : decodeWithConfig bs env expected ⟨some n2, q2⟩ = .ok v2 s2) :
+    v1 = v2 ∧ ∃ r1 r2, s1.dq = some r1 ∧ s2.dq = some r2 ∧ (n1 : Int) - r1 = (n2 : Int) - r2 := by
+  -- a configuration above both
+  let q3 : Option Nat := match q1, q2 with
+    | some a, some b => some (max a b)
+    | _, _ => none
+  have hq1 : qle q1 q3 := by
+    cases q1 <;> cases q2 <;> simp [q3, qle] <;> omega
+  have hq2 : qle q2 q3 := by
+    cases q1 <;> cases q2 <;> simp [q3, qle] <;> omega
+  obtain ⟨δ1, hδ1⟩ := qle_mode _ _ hq1
+  obtain ⟨δ2, hδ2⟩ := qle_mode _ _ hq2
+  have e1 : qrel (.both (max n1 n2 - n1)) (some n1) (some (max n1 n2)) := ⟨n1, rfl, by congr 1; omega⟩
+  have e2 : qrel (.both (max n1 n2 - n2)) (some n2) (some (max n1 n2)) := ⟨n2, rfl, by congr 1; omega⟩
+  obtain ⟨a, ha, ra, _⟩ := decode_shift bs env expected ⟨some n1, q1⟩ ⟨some (max n1 n2), q3⟩ v1 s1 e1 hδ1 h1
+  obtain ⟨b, hb, rb, _⟩ := decode_shift bs env expected ⟨some n2, q2⟩ ⟨some (max n1 n2), q3⟩ v2 s2 e2 hδ2 h2
+  rw [ha] at hb
+  simp only [R.ok.injEq] at hb
+  obtain ⟨hv, hab⟩ := hb
+  subst hab
+  obtain ⟨r1, hr1, hr1'⟩ := ra
+  obtain ⟨r2, hr2, hr2'⟩ := rb
+  rw [hr1'] at hr2'
+  simp only [Option.some.injEq] at hr2'
+  exact ⟨hv, r1, r2, hr1, hr2, by omega⟩
+
+/-- non-vacuity: a message that decodes under quotas, and what is left of the decoding quota -/
+example : (match decodeWithConfig [0x44, 0x49, 0x44, 0x4c, 0, 1, 0x7e, 1] [] [.prim .bool] ⟨some 1000, some 1000⟩ with
+    | .ok [.bool true] s => s.dq == some 922
+    | _ => false) = true := by decide
 
 end Candid.Props.C07
